@@ -95,9 +95,12 @@ def compare(sc, eng, mod, kinds, with_dump=False):
         if with_dump:
             ed = {o["pid"]: dump_norm(o) for o in eobs if o.get("k") == "dump"}
             md = {o["pid"]: dump_norm(o) for o in mobs if o.get("k") == "dump"}
+            # a process that was dropped from the cache (`evict`) has no live image until something reaches it again: its rows are
+            # compared by C11 / C12, its image again at the next operation that loads it
+            evicted = {op[1] for op in sc["ops"][: i + 1] if op and op[0] == "evict"}
             for pid, d in ed.items():
                 if d is None:
-                    if pid in md:
+                    if pid in md and pid not in evicted:
                         return (i, "dump", f"process {pid} gone in the engine, present in the model")
                     continue
                 if pid not in md:
@@ -109,6 +112,10 @@ def compare(sc, eng, mod, kinds, with_dump=False):
                     return (i, "dump", f"proc {pid}: {len(x['tasks'])} tasks vs {len(y['tasks'])}")
                 for a, b in zip(x["tasks"], y["tasks"]):
                     for f in ("tid", "nid", "state", "prev", "data"):
+                        if f == "data" and pid in evicted and isinstance(a[f], dict) and isinstance(b[f], dict):
+                            # `$params` is a memo of the evaluated parameters: it is not part of the rows (C11) and is gone after a reload
+                            a = dict(a, data={k: v for k, v in a[f].items() if k != "$params"})
+                            b = dict(b, data={k: v for k, v in b[f].items() if k != "$params"})
                         if a[f] != b[f]:
                             return (i, "dump", f"task {a['tid']} ({a['nid']}) field {f}: engine {json.dumps(a[f])[:150]} model {json.dumps(b[f])[:150]}")
                     if (a["err"] or {}).get("ecode") != (b["err"] or {}).get("ecode") or bool(a["err"]) != bool(b["err"]):
